@@ -284,6 +284,13 @@ def run(ctx):
             r7.fail('anchor/%s' % adt, '-', 'ADT or its size function not found')
             continue
         read = fields_read(body)
+        # the per-variant part may live in a private helper the size function calls on the same value (methods of the same type)
+        own = strip_generics(body.nid).rsplit('::', 1)[0]
+        for cbb, ct in body.calls():
+            cn = strip_generics(ct.get('callee') or '')
+            if cn.rsplit('::', 1)[0] == own and cn != body.nid:
+                for h in mir.find(cn):
+                    read |= fields_read(h)
         is_enum = a['kind'] == 'Enum'
         for v in a['variants']:
             for f in v['fields']:
@@ -389,9 +396,21 @@ def big_integer_units(ctx):
 
     def const_int(op):
         c = op.get('const') if isinstance(op, dict) else None
-        return int(c['int']) if c and 'int' in c and c['int'].lstrip('-').isdigit() else None
-    for b in targets:
+        if c and 'int' in c and c['int'].lstrip('-').isdigit():
+            return int(c['int'])
+        if c and 'uneval' in c and 'promoted' not in c:
+            # a named constant item: the value its initialiser assigns
+            cb = mir.by_id.get(c['uneval']) or next(iter(mir.find(strip_generics(c['uneval']))), None)
+            if cb is not None:
+                for i, j, s in cb.stmts():
+                    if s['k'] == 'assign' and s['place']['l'] == 0 and s['rv']['k'] == 'use' and 'const' in s['rv']['op']:
+                        return const_int(s['rv']['op'])
+        return None
+
+    def evaluate(b, param_units, depth=2):
         memo = {}
+        for k_, u_ in param_units.items():
+            memo[k_] = u_
 
         def unit_op(op):
             if 'const' in op:
@@ -399,7 +418,7 @@ def big_integer_units(ctx):
             p = op_place(op)
             return unit(p['l']) if p is not None else 'unknown'
 
-        def unit(l, depth=0):
+        def unit(l, depth_=0):
             if l in memo:
                 return memo[l]
             memo[l] = 'unknown'
@@ -427,7 +446,16 @@ def big_integer_units(ctx):
                     elif last in ('to_usize', 'unwrap', 'unwrap_or', 'unwrap_or_default', 'try_into', 'try_from', 'from', 'into', 'expect', 'clone', 'saturating_add', 'max', 'min') and d['args']:
                         us.add(unit_op(d['args'][0]))
                     else:
-                        us.add('unknown')
+                        # a small function of the crate: its result unit for these argument units
+                        hs = mir.find(nm)
+                        if len(hs) == 1 and hs[0].kind == 'fn' and depth > 0 and len(hs[0].blocks) <= 30:
+                            pu = {}
+                            for ai, a_ in enumerate(d['args']):
+                                pu[ai + 1] = unit_op(a_)
+                            hr = evaluate(hs[0], pu, depth - 1)
+                            us.add(next(iter(hr)) if len(hr) == 1 else 'mixed(%s)' % ', '.join(sorted(hr)) if hr else 'unknown')
+                        else:
+                            us.add('unknown')
                     continue
                 rv = d['rv']
                 if rv['k'] in ('use', 'cast'):
@@ -478,6 +506,9 @@ def big_integer_units(ctx):
             if kind == 'call':
                 memo.pop(0, None)
                 rets.add(unit(0))
+        return rets
+    for b in targets:
+        rets = evaluate(b, {})
         ok = bool(rets) and rets <= {'bytes', 'const'}
         r9.inst({'fn': b.nid, 'returns': sorted(rets)}, ok=ok, kind=b.id)
         if not ok:
